@@ -1,11 +1,5 @@
-import os
 from specs import KEYS, CHECKS, unit
 
-# development knob: VERIF_ASSUME_KNOWN=pool-double-close-runner ./check C14 runs as if the lead had
-# already listed that finding key in known_findings.txt
-_dev_env = {'VERIF_KNOWN': os.environ['VERIF_ASSUME_KNOWN']} if os.environ.get('VERIF_ASSUME_KNOWN') else {}
-
-# shared with spec_c14_e2e.py (same harness binary)
 KEYS.setdefault('dispatchcloud_c14', {
     'pkg': 'lib/dispatchcloud',
     'hooks': {'lib/dispatchcloud/test/verif_hooks.go': 'harness/dispatchcloud_c14/hooks/test_verif_hooks.go'},
@@ -20,6 +14,6 @@ CHECKS['C15'] = {
         unit('live', 'dispatchcloud_c14', '^TestVerifC15Liveness$',
              {'shards': 10, 'timeout': 400, 'env': {'VERIF_SCENARIOS': 2, 'VERIF_MAXN': 120}},
              {'shards': 16, 'timeout': 1500, 'env': {'VERIF_SCENARIOS': 30, 'VERIF_MAXN': 500, 'VERIF_SLOWQUOTA': 1}},
-             rapid=False, env=_dev_env),
+             rapid=False, crash_is_violation=True),
     ],
 }
